@@ -65,6 +65,12 @@ func c17Items() []c17Item {
 		out = append(out, c17Item{name: fmt.Sprintf("*Place{updated:%s}", p.n), kind: "*Place",
 			it: &ap.Place{ID: "https://example.com/pl", Type: ap.PlaceType, Updated: p.t}, key: p.t})
 	}
+	// equal deciding instants, different ids (and types): still incomparable
+	for k, id := range []ap.IRI{"https://example.com/a", "https://example.com/b", "https://example.com/c", ""} {
+		out = append(out, c17Item{name: fmt.Sprintf("*Object{id:%q,published:t2}", id), kind: "*Object", it: &ap.Object{ID: id, Type: ap.NoteType, Published: t2}, key: t2})
+		out = append(out, c17Item{name: fmt.Sprintf("*Activity{id:%q,updated:t2@+05}", id), kind: "*Activity",
+			it: &ap.Activity{ID: id, Type: []ap.ActivityVocabularyType{ap.LikeType, ap.CreateType, ap.FollowType, ap.AnnounceType}[k], Updated: t2.In(time.FixedZone("p5", 5*3600))}, key: t2})
+	}
 	// every object struct of the vocabulary (pointer and value) with published/updated from two instants and EVERY OTHER instant
 	// property (startTime, endTime, deleted, closed ...) set to a decoy in the year 2500: only published/updated may decide
 	decoy := time.Date(2500, 1, 1, 0, 0, 0, 0, time.UTC)
